@@ -150,6 +150,8 @@ def make_obj2(kind):
                 f.pspline_asls(ydata2(98), num_knots=int(w[1:]), lam=10, max_iter=1)
             elif w[0] == 'p':
                 f.poly(ydata2(98), poly_order=int(w[1:]))
+            elif w[0] == 'w':
+                f.asls(ydata2(98), lam=1e2, max_iter=1)
             else:
                 f.pspline_iasls(ydata2(98), num_knots=int(w[1:]), lam=10, max_iter=1)
         return f
@@ -1105,7 +1107,11 @@ LINE_METHODS = [   # (two_d, method key, object states): every user of a cached 
     (False, 'poly', ('warm:5', 'warm:1')), (False, 'loess', ('warm:1', 'warm:3')), (False, 'quant_reg', ('warm:2', 'warm:1')),
     (False, 'goldindec', ('warm:5',)), (False, 'iasls', ('warm:2', 'warm:5')), (False, 'asls', ('x', 'whit:1')),
     (True, 'pspline_asls', ('xz+s5', 'xz+s4')), (True, 'pspline_iasls', ('xz+l5', 'xz+s4')), (True, 'modpoly', ('xz', 'xz+p3')),
+    # 2-D Whittaker hosts (eigendecomposition path, default num_eigens): cold, first call without x/z, and after a
+    # previous identical Whittaker call
+    (True, 'asls', ('xz', 'noxz', 'xz+w')), (True, 'arpls', ('xz+w',)), (True, 'airpls', ('xz', 'xz+w')),
 ]
+METHODS_2D['airpls'] = {'lam': 1e2, 'max_iter': 2}
 MODEL_METHODS['irsqr'] = {'num_knots': 8, 'lam': 10, 'max_iter': 3}
 
 
@@ -1149,7 +1155,7 @@ def heap_cases(ctx):
     else:
         ctx.discharged.append(ob)
     # (2) dynamic: no array reachable from the shared fitter changes in place during a call (digest at every line)
-    ob2 = 'shared-heap-immutable(no array reachable from the shared fitter or its cached helpers is mutated in place; digest at every executed line)'
+    ob2 = 'shared-heap-immutable(no array reachable from the shared fitter or its cached helpers is mutated in place, no attribute of an already shared helper object other than a modelled cell is re-bound; checked at every executed line)'
     ctx.obligations.append(ob2)
     directed = {}
     bad = []
@@ -1158,7 +1164,9 @@ def heap_cases(ctx):
             meth, kw, mk, ys = _line_setup(two_d, name, kind)
             f = mk()
             r = LN.LineRun(call_job(f, meth, kw, ys[0]), monitor=f).run()
-            directed[(two_d, name, kind)] = (r.count, [m[0] for m in r.mut], list(r.helper_lines))
+            directed[(two_d, name, kind)] = (r.count, [m[0] for m in r.mut] + [m[0] for m in r.rebinds], list(r.helper_lines))
+            if r.rebinds:
+                bad.append(f'{"2-D " if two_d else ""}{name} on {kind}: {r.rebinds[0][2][:2]} re-bound on an already shared helper object at {r.rebinds[0][1]} ({len(r.rebinds)} times)')
             ctx.case(('heap', two_d, name, kind), kind='heap-digest')
             if r.mut:
                 bad.append(f'{"2-D " if two_d else ""}{name} on {kind}: {r.mut[0][2][:2]} changed in place at {r.mut[0][1]} ({len(r.mut)} times)')
